@@ -1,6 +1,7 @@
 use std::sync::Arc;
 
 use dyn_clone::DynClone;
+use futures::FutureExt as _;
 
 use crate::{
     Actor, Addr,
@@ -23,7 +24,8 @@ impl<A: Actor> WeakAddr<A> {
     }
 
     pub fn stopped(&self) -> bool {
-        self.running.peek().is_some()
+        // see `Addr::stopped`
+        self.running.clone().now_or_never().is_some()
     }
 
     pub fn try_stop(&mut self) -> Result<()> {
